@@ -127,6 +127,9 @@ Proof.
   - (* LTransportEnd *)
     destruct (recv_closed s); [discriminate|]. inversion E; subst s'; clear E.
     inv_split H. constructor; simpl; eauto.
+  - (* LRouterStops *)
+    destruct (router_reads s); [|discriminate]. inversion E; subst s'; clear E.
+    inv_split H. constructor; simpl; eauto.
   - (* LCtx *)
     destruct (wlookup (ws s) k) as [w|] eqn:Ek; [|discriminate].
     destruct (w_pc w); try discriminate. destruct (w_call w); [|discriminate].
@@ -177,10 +180,23 @@ Proof.
     destruct (g && w_gone w); [|discriminate]. inversion E; subst s'; clear E.
     inv_split H. constructor; simpl; intros; eauto; try discriminate.
     split; intro X; [|discriminate]. apply Hdone in X. congruence.
+  - (* LRunSeeRecvDone *)
+    destruct (r_pc s) eqn:Er; try discriminate.
+    destruct (g && recv_done s); [|discriminate]. inversion E; subst s'; clear E.
+    inv_split H. constructor; simpl; intros; eauto; try discriminate.
+    split; intro X; [|discriminate]. apply Hdone in X. congruence.
   - (* LRunUserDone *)
     destruct (r_pc s) eqn:Er; try discriminate. inversion E; subst s'; clear E.
     inv_split H. constructor; simpl; intros; eauto; try discriminate.
     split; intro X; [|discriminate]. apply Hdone in X. congruence.
+  - (* LSent *)
+    destruct (wlookup (ws s) k) as [w|] eqn:Ek; [|discriminate].
+    destruct (w_pc w); try discriminate. destruct (router_reads s); [|discriminate].
+    inversion E; subst s'. apply inv_set_wpc; auto; discriminate.
+  - (* LSendSeesDone *)
+    destruct (wlookup (ws s) k) as [w|] eqn:Ek; [|discriminate].
+    destruct (w_pc w); try discriminate. destruct (g && done s); [|discriminate].
+    inversion E; subst s'. apply inv_set_wpc; auto; discriminate.
   - (* LTimer *)
     destruct (wlookup (ws s) k) as [w|] eqn:Ek; [|discriminate].
     destruct (w_pc w); try discriminate.
@@ -293,35 +309,43 @@ Fixpoint waiter_path (g : bool) (k : id) (s : state) (tr : list label) : Prop :=
 Theorem run_unblocks : forall s k,
   reachable true s -> r_pc s = RSend k ->
   exists w tr, wlookup (ws s) k = Some w /\ (List.length tr <= release_rank (w_pc w))%nat /\
-               waiter_path true k s tr /\ run_move_enabled true (exec true s tr).
+               waiter_path true k s tr /\
+               (run_move_enabled true (exec true s tr) \/ (w_pc w = WSending /\ router_reads s = false)).
 Proof.
   intros s k R Hr. pose proof (inv_reachable _ _ R) as I.
   destruct (inv_send _ _ I k Hr) as [w Hk]. exists w.
   destruct (w_pc w) eqn:Epc.
-  - exists []. simpl. repeat split; auto. left. unfold enabled. simpl. rewrite Hr, Hk, Epc. reflexivity.
+  - (* still handing its request to the peer *)
+    destruct (router_reads s) eqn:Err.
+    + exists [LSent k]. simpl. repeat split; auto.
+      * unfold enabled. simpl. rewrite Hk, Epc, Err. reflexivity.
+      * left. left. unfold exec_step. simpl. rewrite Hk, Epc, Err. unfold enabled. simpl. rewrite Hr.
+        erewrite wlookup_update_same by eauto. reflexivity.
+    + exists []. simpl. repeat split; auto.
+  - exists []. simpl. repeat split; auto. left. left. unfold enabled. simpl. rewrite Hr, Hk, Epc. reflexivity.
   - exists [LProgDone k]. simpl. repeat split; auto.
     + unfold enabled. simpl. rewrite Hk, Epc. reflexivity.
-    + left. unfold exec_step. simpl. rewrite Hk, Epc. unfold enabled. simpl. rewrite Hr.
+    + left. left. unfold exec_step. simpl. rewrite Hk, Epc. unfold enabled. simpl. rewrite Hr.
       erewrite wlookup_update_same by eauto. reflexivity.
   - exists [LCancelSent k]. simpl. repeat split; auto.
     + unfold enabled. simpl. rewrite Hk, Epc. reflexivity.
-    + left. unfold exec_step. simpl. rewrite Hk, Epc. unfold enabled. simpl. rewrite Hr.
+    + left. left. unfold exec_step. simpl. rewrite Hk, Epc. unfold enabled. simpl. rewrite Hr.
       erewrite wlookup_update_same by eauto. reflexivity.
-  - exists []. simpl. repeat split; auto. left. unfold enabled. simpl. rewrite Hr, Hk, Epc. reflexivity.
+  - exists []. simpl. repeat split; auto. left. left. unfold enabled. simpl. rewrite Hr, Hk, Epc. reflexivity.
   - exists [LDelete k; LCloseGone k]. simpl. repeat split; auto.
     + unfold enabled. simpl. rewrite Hk, Epc. reflexivity.
     + unfold exec_step at 1. simpl. rewrite Hk, Epc. unfold enabled. simpl.
       erewrite wlookup_update_same by eauto. reflexivity.
-    + right. unfold exec_step. simpl. rewrite Hk, Epc. simpl.
+    + left. right. unfold exec_step. simpl. rewrite Hk, Epc. simpl.
       erewrite wlookup_update_same by eauto. simpl. unfold enabled. simpl. rewrite Hr.
       erewrite wlookup_update_same.
       * reflexivity.
       * erewrite wlookup_update_same by eauto. reflexivity.
   - exists [LCloseGone k]. simpl. repeat split; auto.
     + unfold enabled. simpl. rewrite Hk, Epc. reflexivity.
-    + right. unfold exec_step. simpl. rewrite Hk, Epc. unfold enabled. simpl. rewrite Hr.
+    + left. right. unfold exec_step. simpl. rewrite Hk, Epc. unfold enabled. simpl. rewrite Hr.
       erewrite wlookup_update_same by eauto. reflexivity.
-  - exists []. simpl. repeat split; auto. right. unfold enabled. simpl. rewrite Hr, Hk.
+  - exists []. simpl. repeat split; auto. left. right. unfold enabled. simpl. rewrite Hr, Hk.
     rewrite (inv_gone _ _ I k w Hk Epc). reflexivity.
 Qed.
 
@@ -329,7 +353,7 @@ Qed.
 (* T1'. In the UNGUARDED variant the stuck state is reachable and final  *)
 
 Definition stuck_trace : list label :=
-  [LNewWaiter 1 false; LDeliver (MReply 1); LRunTake; LRunLookup;
+  [LNewWaiter 1 false; LSent 1; LDeliver (MReply 1); LRunTake; LRunLookup;
    LTimer 1; LDelete 1; LCloseGone 1].
 
 Lemma stuck_reached : run_stuck false (exec false init stuck_trace).
@@ -356,6 +380,7 @@ Proof.
     exists k, w. simpl. destruct (k =? k0) eqn:E0; [apply N.eqb_eq in E0; subst; congruence|]. auto.
   - destruct (recv_closed s); [discriminate|]. inversion E; subst. split; auto; try (apply Hkeep; reflexivity).
   - destruct (recv_closed s); [discriminate|]. inversion E; subst. split; auto; try (apply Hkeep; reflexivity).
+  - destruct (router_reads s); [|discriminate]. inversion E; subst. split; auto; try (apply Hkeep; reflexivity).
   - destruct (wlookup (ws s) k0) as [w'|] eqn:Ek; [|discriminate].
     destruct (w_pc w') eqn:Ew; try discriminate. destruct (w_call w'); [|discriminate].
     inversion E; subst s'. split; simpl; auto. exists k, w. simpl. repeat split; auto.
@@ -366,7 +391,14 @@ Proof.
   - rewrite Hr in E. discriminate.
   - rewrite Hr, Hk, Hpc in E. discriminate.
   - rewrite Hr, Hk in E. simpl in E. discriminate.
+  - rewrite Hr in E. simpl in E. discriminate.
   - rewrite Hr in E. discriminate.
+  - destruct (wlookup (ws s) k0) as [w'|] eqn:Ek; [|discriminate].
+    destruct (w_pc w') eqn:Ew; try discriminate. destruct (router_reads s); [|discriminate].
+    inversion E; subst s'. split; simpl; auto.
+    exists k, w. simpl. repeat split; auto. apply Hother; auto. rewrite Ew. discriminate.
+  - destruct (wlookup (ws s) k0) as [w'|] eqn:Ek; [|discriminate].
+    destruct (w_pc w') eqn:Ew; try discriminate.
   - destruct (wlookup (ws s) k0) as [w'|] eqn:Ek; [|discriminate].
     destruct (w_pc w') eqn:Ew; try discriminate.
     + destruct (w_call w'); [discriminate|]. inversion E; subst s'. split; simpl; auto.
@@ -434,19 +466,27 @@ Definition internal_waiter_label (l : label) : bool :=
   match l with LCtx _ => false | _ => true end.
 
 (* An API goroutine that has not returned always has an enabled step of its
-   own, EXCEPT a Call in its first select while the connection is up: that
-   one waits for its reply, for its context, or for Done. *)
+   own, EXCEPT (a) a Call in its first select while the connection is up: it
+   waits for its reply, for its context, or for Done; (b) a goroutine that is
+   handing its request to a peer that has stopped reading while the client has
+   not stopped (in the repaired client: Done releases it). *)
 Theorem api_always_returns_lts : forall g s k w,
   reachable g s -> wlookup (ws s) k = Some w -> w_pc w <> WReturned ->
   (exists l, waiter_label_of l = Some k /\ internal_waiter_label l = true /\ enabled g s l = true)
-  \/ (w_call w = true /\ w_pc w = WSelect /\ done s = false /\ enabled g s (LCtx k) = true).
+  \/ (w_call w = true /\ w_pc w = WSelect /\ done s = false /\ enabled g s (LCtx k) = true)
+  \/ (w_pc w = WSending /\ router_reads s = false /\ (g && done s) = false).
 Proof.
   intros g s k w _ Hk Hpc. unfold enabled.
   destruct (w_pc w) eqn:E; try congruence.
+  - destruct (router_reads s) eqn:Err.
+    + left. exists (LSent k). simpl. rewrite Hk, E, Err. auto.
+    + destruct (g && done s) eqn:Egd.
+      * left. exists (LSendSeesDone k). simpl. rewrite Hk, E, Egd. auto.
+      * right. right. auto.
   - destruct (w_call w) eqn:Ec.
     + destruct (done s) eqn:Ed.
       * left. exists (LSeeDone k). simpl. rewrite Hk, E, Ed. auto.
-      * right. simpl. rewrite Hk, E, Ec. auto.
+      * right. left. simpl. rewrite Hk, E, Ec. auto.
     + left. exists (LTimer k). simpl. rewrite Hk, E, Ec. auto.
   - left. exists (LProgDone k). simpl. rewrite Hk, E. auto.
   - left. exists (LCancelSent k). simpl. rewrite Hk, E. auto.
@@ -455,8 +495,75 @@ Proof.
   - left. exists (LCloseGone k). simpl. rewrite Hk, E. auto.
 Qed.
 
+(* The client as it was (plain send): a request issued when the peer's writer
+   has just gone is never handed over, the end of the transport and Done do
+   not release it: the API call never returns, whatever happens next. *)
+Definition send_stuck_trace : list label :=
+  [LRouterStops; LNewWaiter 1 false; LTransportEnd; LRunSeeEnd].
+
+Definition send_stuck (s : state) : Prop :=
+  exists w, wlookup (ws s) 1 = Some w /\ w_pc w = WSending /\ router_reads s = false.
+
+Lemma send_stuck_step : forall s l, send_stuck s -> send_stuck (exec_step false s l).
+Proof.
+  intros s l (w & Hk & Hpc & Hrr). unfold exec_step.
+  destruct (step false s l) as [s'|] eqn:E; [|exists w; auto].
+  assert (Hother : forall k' w' pc, k' <> 1 ->
+            wlookup (wupdate (ws s) k' {| w_pc := pc; w_call := w_call w'; w_gone := w_gone w' |}) 1 = Some w).
+  { intros k' w' pc A. rewrite wlookup_update_other; auto. }
+  assert (Hne : forall k' w', wlookup (ws s) k' = Some w' -> w_pc w' <> WSending -> k' <> 1).
+  { intros k' w' A B X. subst k'. rewrite Hk in A. inversion A; subst. congruence. }
+  destruct l; simpl in E;
+    try (match type of E with context [wlookup (ws s) ?k0] =>
+           destruct (wlookup (ws s) k0) as [w'|] eqn:Ek; [|discriminate];
+           destruct (w_pc w') eqn:Ew; try discriminate end);
+    repeat match type of E with
+           | (if ?c then _ else _) = Some _ => destruct c eqn:?; try discriminate
+           | match ?c with _ => _ end = Some _ => destruct c eqn:?; try discriminate
+           end;
+    try (inversion E; subst s'; clear E);
+    try (exists w; simpl; repeat split; auto; fail);
+    try (exists w; simpl; repeat split; auto; apply Hother; eapply Hne; eauto; rewrite Ew; discriminate).
+  - (* LNewWaiter *) exists w. cbn -[N.eqb]. destruct (1 =? k) eqn:E1; [apply N.eqb_eq in E1; subst; congruence|]. repeat split; auto.
+  - (* LRunTake *) destruct m; exists w; simpl; repeat split; auto.
+  - exists w. simpl. repeat split; auto. rewrite wlookup_update_other; auto.
+    intro X; subst. match goal with A : wlookup (ws s) 1 = Some ?w' |- _ => rewrite Hk in A; inversion A; subst; congruence end.
+  - exists w. simpl. repeat split; auto. rewrite wlookup_update_other; auto.
+    intro X; subst. match goal with A : wlookup (ws s) 1 = Some ?w' |- _ => rewrite Hk in A; inversion A; subst; congruence end.
+  - exists w. simpl. repeat split; auto. rewrite wlookup_update_other; auto.
+    intro X; subst. match goal with A : wlookup (ws s) 1 = Some ?w' |- _ => rewrite Hk in A; inversion A; subst; congruence end.
+  - exists w. simpl. repeat split; auto. rewrite wlookup_update_other; auto.
+    intro X; subst. match goal with A : wlookup (ws s) 1 = Some ?w' |- _ => rewrite Hk in A; inversion A; subst; congruence end.
+Qed.
+
+Theorem api_send_stuck_unguarded_refuted :
+  exists tr, let s := exec false init tr in
+    done s = true /\ recv_closed s = true /\
+    forall tr', exists w, wlookup (ws (exec false s tr')) 1 = Some w /\ w_pc w = WSending.
+Proof.
+  exists send_stuck_trace. cbv zeta. split; [vm_compute; reflexivity|]. split; [vm_compute; reflexivity|].
+  assert (H0 : send_stuck (exec false init send_stuck_trace)).
+  { exists {| w_pc := WSending; w_call := false; w_gone := false |}. vm_compute. auto. }
+  intro tr'. revert H0. generalize (exec false init send_stuck_trace). induction tr' as [|l r IH]; intros s0 H0.
+  - destruct H0 as (w & A & B & _). exists w. auto.
+  - simpl. apply IH. apply send_stuck_step. exact H0.
+Qed.
+
+(* in the repaired client the same state is left as soon as Done is closed *)
+Theorem send_released_by_done : forall s k w,
+  wlookup (ws s) k = Some w -> w_pc w = WSending -> done s = true ->
+  enabled true s (LSendSeesDone k) = true.
+Proof. intros s k w Hk Hpc Hd. unfold enabled. simpl. rewrite Hk, Hpc, Hd. reflexivity. Qed.
+
+(* ... and run(), if it is behind such a goroutine in the hand-over select, is
+   freed by Close()'s EndRecv *)
+Theorem run_released_by_endrecv : forall s k,
+  r_pc s = RSend k -> recv_done s = true -> enabled true s LRunSeeRecvDone = true.
+Proof. intros s k Hr Hd. unfold enabled. simpl. rewrite Hr, Hd. reflexivity. Qed.
+
 Definition wmeasure (pc : wpc) : nat :=
   match pc with
+  | WSending => 8
   | WProg => 7 | WSelect => 6 | WCancelSend => 5 | WCancelSelect => 4
   | WLeaving => 3 | WDeleted => 2 | WReturned => 0
   end.
@@ -468,23 +575,12 @@ Theorem waiter_step_decreases : forall g s l k w s',
 Proof.
   intros g s l k w s' Hl Hk E.
   destruct l; simpl in Hl; try discriminate; inversion Hl; subst k0; simpl in E; rewrite Hk in E;
-    destruct (w_pc w) eqn:Epc; try discriminate.
-  - destruct (w_call w); [|discriminate]. inversion E; subst s'. simpl.
-    erewrite wlookup_update_same by eauto. eexists; split; [reflexivity|simpl; lia].
-  - destruct (w_call w); [discriminate|]. inversion E; subst s'. simpl.
-    erewrite wlookup_update_same by eauto. eexists; split; [reflexivity|simpl; lia].
-  - inversion E; subst s'. simpl.
-    erewrite wlookup_update_same by eauto. eexists; split; [reflexivity|simpl; lia].
-  - destruct (done s); [|discriminate]. inversion E; subst s'. simpl.
-    erewrite wlookup_update_same by eauto. eexists; split; [reflexivity|simpl; lia].
-  - inversion E; subst s'. simpl.
-    erewrite wlookup_update_same by eauto. eexists; split; [reflexivity|simpl; lia].
-  - inversion E; subst s'. simpl.
-    erewrite wlookup_update_same by eauto. eexists; split; [reflexivity|simpl; lia].
-  - inversion E; subst s'. simpl.
-    erewrite wlookup_update_same by eauto. eexists; split; [reflexivity|simpl; lia].
-  - inversion E; subst s'. simpl.
-    erewrite wlookup_update_same by eauto. eexists; split; [reflexivity|simpl; lia].
+    destruct (w_pc w) eqn:Epc; try discriminate;
+    repeat match type of E with
+           | (if ?c then _ else _) = Some _ => destruct c; try discriminate
+           end;
+    inversion E; subst s'; simpl;
+    erewrite wlookup_update_same by eauto; eexists; (split; [reflexivity|simpl; lia]).
 Qed.
 
 (* ------------------------------------------------------------------ *)
@@ -539,6 +635,8 @@ Proof.
   - destruct (r_pc s) eqn:Er; try discriminate.
     destruct (wlookup (ws s) k) as [w|]; [|discriminate].
     destruct (g && w_gone w); [|discriminate]. inversion E; subst s'. simpl. lia.
+  - destruct (r_pc s) eqn:Er; try discriminate.
+    destruct (g && recv_done s); [|discriminate]. inversion E; subst s'. simpl. lia.
   - destruct (r_pc s) eqn:Er; try discriminate. inversion E; subst s'. simpl. lia.
 Qed.
 
@@ -604,7 +702,8 @@ Proof.
   split; [apply (inv_done _ _ I); exact Hd|]. split; [exact Hd|].
   split; [apply (inv_couters _ _ I); rewrite Hc; reflexivity|].
   intros k w Hk Hpc.
-  destruct (api_always_returns_lts true s k w R Hk Hpc) as [H|(_ & _ & Hnd & _)]; [exact H|congruence].
+  destruct (api_always_returns_lts true s k w R Hk Hpc) as [H|[(_ & _ & Hnd & _)|(_ & _ & Hgd)]];
+    [exact H|congruence|rewrite Hd in Hgd; discriminate].
 Qed.
 
 (* the peer is closed only by Close(), once *)
